@@ -440,3 +440,92 @@ func itoa(n int) string {
 	}
 	return s
 }
+
+// quietBody reports whether the statements neither print nor can fault nor call anything that does
+// (conservative: any indexing, slicing, field access, division, call through a value or method call
+// counts as not quiet).
+func (g *Gen) quietBody(body []*S) bool {
+	quietFn := map[string]bool{}
+	for _, f := range g.funcs {
+		quietFn[f.name] = f.quiet
+	}
+	ok := true
+	var ex func(e *E)
+	ex = func(e *E) {
+		if e == nil || !ok {
+			return
+		}
+		switch e.K {
+		case "index", "slice", "field", "callv", "mcall", "mval", "funclit", "make", "conv":
+			ok = false
+			return
+		case "call":
+			if !quietFn[e.Fn] {
+				ok = false
+				return
+			}
+		case "bin":
+			if e.Op == "/" || e.Op == "%" || e.Op == "<<" || e.Op == ">>" {
+				ok = false
+				return
+			}
+		}
+		for _, x := range []*E{e.L, e.R, e.X, e.I, e.Lo, e.Hi} {
+			ex(x)
+		}
+		for _, x := range e.Args {
+			ex(x)
+		}
+		for _, x := range e.Keys {
+			ex(x)
+		}
+	}
+	var st func(ss []*S)
+	st = func(ss []*S) {
+		for _, s := range ss {
+			if !ok {
+				return
+			}
+			switch s.K {
+			case "print", "panic", "delete", "copy":
+				ok = false
+				return
+			case "assign", "opassign", "incdec":
+				for _, l := range s.Lhs {
+					if l.K != "var" && l.K != "blank" {
+						ok = false
+						return
+					}
+				}
+				if s.K == "opassign" && (s.Op == "/" || s.Op == "%" || s.Op == "<<" || s.Op == ">>") {
+					ok = false
+					return
+				}
+			}
+			for _, x := range s.Exprs {
+				ex(x)
+			}
+			for _, x := range []*E{s.E, s.Cond, s.X, s.Tag, s.M, s.Key, s.Dst} {
+				ex(x)
+			}
+			if s.Init != nil {
+				st([]*S{s.Init})
+			}
+			if s.Post != nil {
+				st([]*S{s.Post})
+			}
+			st(s.Then)
+			st(s.Else)
+			st(s.Body)
+			st(s.Def)
+			for _, c := range s.Cases {
+				for _, x := range c.Vals {
+					ex(x)
+				}
+				st(c.Body)
+			}
+		}
+	}
+	st(body)
+	return ok
+}
